@@ -7,5 +7,5 @@ package store
 // The store a server builds when it gains a shard: the API-backed store gets exactly the configured sync period (0 means
 // write-through: every acknowledged Save is already persisted -- C19), this shard and the configured shard count.
 //@ func NewLimitStore props C19
-//@   modifies *
+//@   modifies spawned
 //@   ensures [k8s_store_as_configured] limitOptions.LimitStore == "k8s" ==> typeis(result, "*k8s.objectStore") && unbox(result, "*k8s.objectStore") != nil && unbox(result, "*k8s.objectStore").syncPeriod == limitOptions.K8sStoreSyncPeriod && unbox(result, "*k8s.objectStore").shard == shard && unbox(result, "*k8s.objectStore").shardCount == shardCount && unbox(result, "*k8s.objectStore").gatewayClient == gatewayClient && !unbox(result, "*k8s.objectStore").stopped
